@@ -1,9 +1,8 @@
 CONSTANTS
   Dev = {}
   MaxReq = 2
-  RT = 1
-  DefRT = 2
-  IdleCfg = 0
+  TickMs = 10000
+  StConfs <- St_1_0
   RqCap = 8
   ChanCap = 8
   MaxFrames = 1
@@ -24,4 +23,5 @@ INVARIANT NoCross
 INVARIANT SlotTableSound
 INVARIANT NothingLost
 INVARIANT TimerArmed
+INVARIANT Configured
 CHECK_DEADLOCK FALSE
